@@ -12,7 +12,9 @@ def sh(cmd, **kw):
     return subprocess.run(cmd, shell=True, capture_output=True, text=True, **kw)
 
 def main():
-    mdir = os.path.abspath(sys.argv[1]); props = sys.argv[2:]
+    args = [a for a in sys.argv[1:] if a != "--checks-only"]
+    checks_only = "--checks-only" in sys.argv      # regression runs over seeded/: the change was confirmed when it was imported
+    mdir = os.path.abspath(args[0]); props = args[1:]
     patch = os.path.join(mdir, "patch.diff")
     wt = tempfile.mkdtemp(prefix="mutwt_")
     os.rmdir(wt)
@@ -22,16 +24,16 @@ def main():
         if r.returncode: raise SystemExit("worktree: " + r.stderr)
         # demo on the clean tree
         run = os.path.join(mdir, "run.sh")
-        if os.path.exists(run):
+        if os.path.exists(run) and not checks_only:
             c = sh("sh %s %s" % (run, wt), timeout=600)
             out["demo_clean_exit"] = c.returncode
         a = sh("git -C %s apply %s" % (wt, patch))
         if a.returncode: raise SystemExit("apply failed: " + a.stderr)
         out["diffstat"] = sh("git -C %s diff --stat" % wt).stdout.strip().splitlines()[-1:]
-        if os.path.exists(run):
+        if os.path.exists(run) and not checks_only:
             c = sh("sh %s %s" % (run, wt), timeout=600)
             out["demo_mutant_exit"] = c.returncode
-        b = sh("cd %s && cmake -G Ninja -B _b -DCMAKE_BUILD_TYPE=RelWithDebInfo -DREPROC_TEST=ON >/dev/null 2>&1 && cmake --build _b >/dev/null 2>&1 && ctest --test-dir _b -j8 --timeout 300 2>&1 | tail -3" % wt, timeout=1200)
+        b = sh("true") if checks_only else sh("cd %s && cmake -G Ninja -B _b -DCMAKE_BUILD_TYPE=RelWithDebInfo -DREPROC_TEST=ON >/dev/null 2>&1 && cmake --build _b >/dev/null 2>&1 && ctest --test-dir _b -j8 --timeout 300 2>&1 | tail -3" % wt, timeout=1200)
         out["suite"] = b.stdout.strip().splitlines()[-3:]
         out["suite_passes"] = "100% tests passed" in b.stdout
         shutil.rmtree(os.path.join(wt, "_b"), ignore_errors=True)
